@@ -8,7 +8,7 @@ HERE = os.path.dirname(os.path.abspath(__file__))
 if HERE not in sys.path:
     sys.path.insert(0, HERE)
 
-import drive, gen, vlib  # noqa: E402
+import drive, gen, vlib, model  # noqa: E402
 
 BATCH = 1200     # traces per TLC start (JSON loading dominates; keeps the heap small)
 
@@ -80,12 +80,114 @@ def f11_match(T):
     return False
 
 
+
+# ----------------------------------------------------------------------------------------
+#  design level: model checking of spec/Droop.tla and spec -> code replay
+# ----------------------------------------------------------------------------------------
+def model_configs(rules=None):
+    L = list(model.STATUTORY_CFG.values()) + [
+        model.cfgrec('wigm', p=2, batch='none'),
+        model.cfgrec('wigm', kind='guarded', p=2, g=1, batch='zero'),
+        model.cfgrec('wigm', p=0, intq=True, batch='none'),
+        model.cfgrec('meek', p=3, omega10=2, batch='safe'),
+        model.cfgrec('meek', kind='guarded', p=2, g=1, omega10=1, batch='none'),
+        model.cfgrec('warren', p=2, omega10=1, batch='safe'),
+        model.cfgrec('meek-prf', p=4, omega10=2),
+        model.cfgrec('qpq', kind='guarded', p=3, g=2)]
+    if rules is not None:
+        L = [c for c in L if c['rule'] in rules]
+    return L
+
+
+def check_of(prop, rules):
+    return [prop]
+
+
+def judge_header(h, props):
+    "run the real code on a model header and judge its trace with the given properties"
+    blt, opts, lp = model.header_to_input(h)
+    T = drive.run_count(blt, opts, lowprec=lp, iters=True)
+    Nt = drive.to_native(T)
+    if Nt is None:
+        return None, T, (blt, opts, lp)
+    Nt['id'] = 1
+    Nt['fam'] = drive.fam(T['rule'])
+    verd, _ = vlib.judge([Nt], props, workers=1)
+    return verd[1], T, (blt, opts, lp)
+
+
+def model_stage(R, prop, tier, rules=None, export_mod=0, c03=False, known=None):
+    """
+    (M) TLC checks the property operators on every finished count of the bounded scope;
+    (S->C) every exported case is replayed into the real code and compared action by action.
+    A model counterexample becomes a VIOLATION only if the real code reproduces it.
+    """
+    known = known or {}
+    cfgs = model_configs(rules)
+    if not cfgs:
+        return
+    scopes = [dict(nc=3, maxb=3, maxm=2, seatset=(1, 2), ties=[(1, 2, 3), (3, 1, 2)])]
+    if tier == 'thorough':
+        scopes = [dict(nc=3, maxb=5, maxm=3, seatset=(1, 2, 3), ties=[(1, 2, 3), (3, 1, 2), (2, 3, 1)]),
+                  dict(nc=4, maxb=3, maxm=2, seatset=(1, 2, 3), ties=[(1, 2, 3, 4), (4, 2, 3, 1)])]
+    for sc in scopes:
+        unds = [(), (1,)] if any(c['rule'] == 'mpls' for c in cfgs) else [()]
+        res = model.mc_run(cfgs, check=[prop] if not c03 else ['C01', 'C09'], export=export_mod, unds=unds,
+                           devs=[d for d in model.ALL_DEVS if model.DEV_FINDING[d] in known], devneutral=c03,
+                           timeout=3000 if tier == 'thorough' else 600, **sc)
+        R.add_tlc(res)
+        iv = model.invariant_violation(res['out'])
+        R.stage('model-check Droop.tla', scope=str(sc), configs=[c['rule'] + ':' + c['kind'] + str(c['p']) for c in cfgs],
+                distinct_states=res['distinct'], wall_s=round(res['wall'], 1), invariant_violated=iv[0] if iv else None)
+        if iv:
+            payloads = model.fails_of(res['out'])
+            if not payloads:
+                raise vlib.Machinery('TLC reports %s violated but no counterexample payload:\n%s' % (iv[0], res['out'][-2500:]))
+            kind, pl = payloads[0]
+            h = pl['h']
+            if kind == 'DEVDIFF':
+                blt, opts, lp = model.header_to_input(h)
+                R.violation('C03: a listed deviation of the code from the rule text changes the winners (TextSpec vs CodeSpec differ) rule=%s' % h['rule'],
+                            dict(blt=blt, options=opts, lowprec=lp, devs=pl['devs']))
+                continue
+            fails, T, (blt, opts, lp) = judge_header(h, [prop])
+            if fails:
+                p, cl, k = fails[0]
+                R.violation('%s clause %s at action %d: model counterexample reproduced on the real code, rule=%s' % (p, cl, k, h['rule']),
+                            dict(blt=blt, options=opts, lowprec=lp, clause=cl, action_index=k, model_fails=pl['fails']))
+            else:
+                raise vlib.Machinery('SPEC-DIVERGENCE: the model violates %s on %s but the real code does not: %s' % (prop, h['rule'], json.dumps(pl['fails'])))
+        elif 'Error:' in res['out']:
+            raise vlib.Machinery('TLC error:\n' + res['out'][-3000:])
+        cases = model.cases_of(res['out'])
+        nd = 0
+        for case in cases:
+            d, T, (blt, opts, lp) = model.replay_case(case)
+            R.cov['traces_validated_against_impl'] += 1
+            if d is None:
+                continue
+            nd += 1
+            statutory = case['h']['rule'] in drive.STATUTORY
+            if c03 and statutory and d['field'] in model.C03_FIELDS + ['subjs', 'tied', '(length)', 'outcome']:
+                R.violation('C03: the code departs from the %s specification at action %d field %s (expected %s, observed %s)' % (
+                    case['h']['rule'], d['index'], d['field'], d['expected'], d['observed']),
+                    dict(blt=blt, options=opts, lowprec=lp, difference=d))
+            else:
+                R.cov.setdefault('spec_code_divergences', []).append(dict(rule=case['h']['rule'], blt=blt, difference=d))
+        R.stage('spec->code replay', cases=len(cases), differences=nd)
+        if cases:
+            c0 = cases[0]
+            R.sample(dict(kind='spec->code case', rule=c0['h']['rule'], lines=c0['h']['lines'], seats=c0['h']['seats'],
+                          expected_actions=[(a['tag'], a['subj']) for a in c0['acts']]))
+
+
 def check_counts(prop, tier):
     R = vlib.Result(prop, tier)
     rng = random.Random(vlib.seed() * 1000003 + int(prop[1:]))
     known = known_ids()
     rules = RULESET.get(prop, drive.RULES)
     nprof = NPROFILES[tier]
+    model_stage(R, prop, tier, rules=rules, export_mod=(97 if tier == 'quick' else 29), known=known)
     traces, meta = [], {}
     hist = collections.Counter()
     byrule = collections.Counter()
@@ -177,6 +279,106 @@ def check_counts(prop, tier):
     return R.finish()
 
 
+
+# ----------------------------------------------------------------------------------------
+#  C03: statutory rules carry out their published procedure (conformance to the rule specs)
+# ----------------------------------------------------------------------------------------
+C03_RULES = drive.STATUTORY + ['wigm']
+
+
+def check_c03(tier):
+    prop = 'C03'
+    R = vlib.Result(prop, tier)
+    rng = random.Random(vlib.seed() * 1000003 + 3)
+    known = known_ids()
+    devs = [d for d in model.ALL_DEVS if model.DEV_FINDING[d] in known]
+    # (M) + (S->C): exhaustive small scope, every exported case replayed, all fields compared
+    model_stage(R, prop, tier, rules=drive.STATUTORY, export_mod=(11 if tier == 'quick' else 3), c03=True, known=known)
+    # (C->S): lock-step conformance of recorded traces on the random scope
+    nprof = 150 if tier == 'quick' else 2500
+    traces, meta = [], {}
+    byrule = collections.Counter()
+    skipped = collections.Counter()
+    devuse = collections.Counter()
+    tid = 0
+
+    def flush():
+        if not traces:
+            return
+        out, res = vlib.conform(traces, devs, workers=16)
+        R.add_tlc(res)
+        R.cov['traces_validated_against_impl'] += len(traces)
+        for i, v in out.items():
+            blt, opts, lp, T = meta[i]
+            if v['verdict'] == 'ACCEPT':
+                for d in v['devs']:
+                    fid = model.DEV_FINDING.get(d)
+                    devuse[d] += 1
+                    if fid in known:
+                        R.known_finding(fid, known[fid]['text'])
+                    else:
+                        R.violation('C03: deviation arm %s used but not a listed finding' % d, dict(blt=blt, options=opts))
+                if v['warn']:
+                    R.cov.setdefault('conformance_warnings', []).append(dict(rule=T['rule'], fields=v['warn'], blt=blt))
+            else:
+                a = T['acts'][v['at'] - 1] if 0 < v['at'] <= len(T['acts']) else {}
+                R.violation('C03: %s (options %s) is not a behaviour of the %s specification: action %d (%s) field %s' % (
+                    T['rule'], opts, 'wigm-prf' if T['rule'] == 'wigm' else T['rule'], v['at'], a.get('msg', ''), v['field']),
+                    dict(blt=blt, options=opts, lowprec=lp, action_index=v['at'], field=v['field'], action=a.get('msg'),
+                         actions=[x['msg'] for x in T['acts']]))
+        del traces[:]
+        meta.clear()
+
+    for i in range(nprof):
+        shape = pick_shape(rng, [('random', 4), ('tie', 2), ('quota', 2), ('chain', 2), ('coalition', 1)])
+        pr = make_profile(rng, shape, 'C01')
+        if shape == 'random' and rng.random() < 0.5:
+            pr = gen.randprofile(rng, wd=True, und=True, maxc=5, maxlines=7)
+        blt = drive.mkblt(**pr)
+        for rule in C03_RULES:
+            if rule == 'wigm':
+                cfgs = [(dict(rule='wigm', arithmetic='fixed', precision=4), None)]
+            else:
+                cfgs = gen.configs(rule, rng)
+            for opts, lp in cfgs:
+                T = drive.run_count(blt, opts, lowprec=lp)
+                R.cov['evaluations'] += 1
+                if T['outcome'] == 'reject':
+                    skipped['rejected'] += 1
+                    continue
+                if T['outcome'] != 'ok' and not (T['outcome'] == 'exc' and T['acts'] and T['acts'][-1]['tag'] == 'end'):
+                    skipped['count failed: ' + T['exc'][:30]] += 1
+                    continue
+                Nt = drive.to_native(T)
+                if Nt is None:
+                    skipped['not encodable'] += 1
+                    continue
+                tid += 1
+                Nt['id'] = tid
+                Nt['fam'] = drive.fam(T['rule'])
+                Nt['specrule'] = 'wigm-prf' if rule == 'wigm' else T['rule']
+                traces.append(Nt)
+                meta[tid] = (blt, opts, lp, T)
+                byrule[rule] += 1
+                if tid % 173 == 1:
+                    R.sample(dict(blt=blt, options=opts, lowprec=lp, actions=[a['msg'] for a in T['acts']][:14]))
+                if len(traces) >= BATCH:
+                    flush()
+    flush()
+    R.cov['distinct_nontrivial'] = tid
+    R.cov['per_rule'] = dict(byrule)
+    R.cov['deviation_arms_used'] = dict(devuse)
+    R.cov['skipped'] = dict(skipped)
+    R.cov['rule'] = ('(M) TLC enumerates every profile of the bounded scope for the statutory rule specifications (clause-by-clause TLA+ '
+                     'transcriptions in spec/Rule*.tla at statutory precision p4/p5; meek-prf and qpq at reduced precision); (S->C) exported '
+                     'cases replayed into the code, all fields compared; (C->S) recorded traces of seeded random/shaped profiles must be '
+                     'behaviours of the specification in lock-step (spec/TraceCount.tla); wigm fixed p4 is validated against the wigm-prf spec')
+    R.assumptions += ['the TLA+ transcription of the rule texts (DESIGN 9)', 'meek-prf (p9) and qpq (9+9) are validated at reduced precision '
+                      'through harness-side replacement of the statutory constants; the count() body executed is the repository\'s',
+                      'harness/drive.py trace recording; TLC']
+    return R.finish()
+
+
 COUNT_PROPS = ('C01', 'C02', 'C04', 'C05', 'C06', 'C07', 'C08', 'C09', 'C18')
 
 
@@ -210,6 +412,8 @@ def main(argv):
             return 2
         if prop in COUNT_PROPS:
             return check_counts(prop, tier)
+        if prop == 'C03':
+            return check_c03(tier)
         print('no check registered for', prop)
         return 2
     except vlib.Machinery as e:
